@@ -665,3 +665,11 @@ func DecodeRaw(data []byte) ([]byte, error) {
 	}
 	return io.ReadAll(r)
 }
+
+func gzBytes(b []byte) []byte {
+	var buf bytes.Buffer
+	w, _ := gzip.NewWriterLevel(&buf, gzip.BestSpeed)
+	_, _ = w.Write(b)
+	_ = w.Close()
+	return buf.Bytes()
+}
